@@ -40,4 +40,11 @@ theorem tie_wide (rw : Nat) (hrw : 1 ≤ rw) (idx : Key → Nat) (ws : WState)
 theorem tie_wide_refines (rw : Nat) (idx : Key → Nat) (ws : WState)
     (hr : (MW Nv.Gen.C01.cfg rw idx).Reach ws) : (M Nv.Gen.C01.cfg rw).Reach (wproj idx ws) :=
   sem_wide_refines _ rw idx ws hr
+
+/-- today's sharded maps route only the key kinds `remap.ToBytes` has an arm for: a key outside them is unknown to
+    every shard of every reachable state (the call panics before any lock) -/
+theorem tie_wide_unroutable (rw : Nat) (idx : Key → Nat) (routable : Key → Bool) (ws : WState)
+    (hr : (MWR Nv.Gen.C01.cfg rw idx routable).Reach ws) (k : Key) (hk : routable k = false) (i : Nat) :
+    ws i k = KS.init :=
+  (sem_wide_unroutable _ rw idx routable ws hr).2 k hk i
 end Nv.C01
